@@ -679,11 +679,25 @@ pub fn gen_session(rng: &mut Rng, k: &L2Knobs) -> Vec<SOp> {
             let independent = k.avoids("txn_read_own_writes");
             let allow_fail = !k.avoids("failing_statement_in_txn");
             let mut touched: BTreeSet<i64> = BTreeSet::new();
+            // nodes that only received blind property writes (literal SET / REMOVE keyed by the
+            // immutable id) so far in this transaction: such statements do not read the
+            // transaction's own writes and may hit the same node again
+            let mut blind: BTreeSet<i64> = BTreeSet::new();
+            let is_blind = |s: &Stmt| match s {
+                Stmt::SetProp { val: SetVal::Lit(_) | SetVal::Null, .. } | Stmt::RemoveProp { .. } => true,
+                _ => false,
+            };
             for _ in 0..n {
                 let s = if independent {
                     // every statement of the transaction works on nodes that existed when the
-                    // transaction began and that no earlier statement of it touched
+                    // transaction began and that no earlier statement of it touched (blind
+                    // property writes excepted: they see the transaction-local properties)
                     let mut visible = m.clone();
+                    for id in &blind {
+                        if let (Some(v), Some(l)) = (visible.nodes.get_mut(id), local.nodes.get(id)) {
+                            *v = l.clone();
+                        }
+                    }
                     visible.nodes.retain(|id, _| !touched.contains(id));
                     visible.edges.retain(|(a, _, b), _| !touched.contains(a) && !touched.contains(b));
                     // nodes connected to a touched node keep their relationships out of sight: skip them too
@@ -702,7 +716,18 @@ pub fn gen_session(rng: &mut Rng, k: &L2Knobs) -> Vec<SOp> {
                 if !allow_fail && local.clone().apply(&s).is_err() {
                     continue;
                 }
-                touched.extend(s.ids());
+                if independent {
+                    if is_blind(&s) && s.ids().iter().all(|id| m.nodes.contains_key(id)) {
+                        blind.extend(s.ids());
+                    } else if s.ids().iter().any(|id| blind.contains(id)) {
+                        // a reading statement on a node this transaction already wrote to
+                        continue;
+                    } else {
+                        touched.extend(s.ids());
+                    }
+                } else {
+                    touched.extend(s.ids());
+                }
                 if let Stmt::DetachDelete { id } | Stmt::DeleteNode { id } = &s {
                     // neighbours of a deleted node are affected as well
                     for (a, _, b) in m.edges.keys() {
